@@ -207,6 +207,12 @@ Definition stmt_flag_or : Prop :=
   forall (K : Type) (flag_of : K -> Z) l l', Permutation l l' ->
   forall acc, fold_left (fun a k => Z.lor a (flag_of k)) l acc = fold_left (fun a k => Z.lor a (flag_of k)) l' acc.
 
+Definition stmt_sum : Prop :=
+  forall (K : Type) (amount_of : K -> Z) l l', Permutation l l' ->
+  forall acc, fold_left (fun a k => a + amount_of k) l acc = fold_left (fun a k => a + amount_of k) l' acc.
+Lemma stmt_sum_holds : stmt_sum.
+Proof. intros K am l l' HP acc. apply fold_comm_invariant_gen; [|exact HP]. intros b x y. lia. Qed.
+
 Lemma stmt_set_insert_holds : stmt_set_insert.
 Proof. intros K V keqb He c l l' HP m x. now apply set_insert_invariant. Qed.
 Lemma stmt_per_key_write_holds : stmt_per_key_write.
@@ -221,15 +227,17 @@ Open Scope string_scope.
 Definition shape_statement (k : string) : Prop :=
   if String.eqb k "set-insert" then stmt_set_insert
   else if String.eqb k "per-key-write" then stmt_per_key_write
-  else if String.eqb k "flag-or" then stmt_flag_or else False.
+  else if String.eqb k "flag-or" then stmt_flag_or
+  else if String.eqb k "sum" then stmt_sum else False.
 Definition shape_known (k : string) : bool :=
-  String.eqb k "set-insert" || String.eqb k "per-key-write" || String.eqb k "flag-or".
+  String.eqb k "set-insert" || String.eqb k "per-key-write" || String.eqb k "flag-or" || String.eqb k "sum".
 Lemma shape_known_statement k : shape_known k = true -> shape_statement k.
 Proof.
   unfold shape_known, shape_statement. intro H.
   destruct (String.eqb k "set-insert"); [exact stmt_set_insert_holds|].
   destruct (String.eqb k "per-key-write"); [exact stmt_per_key_write_holds|].
-  destruct (String.eqb k "flag-or"); [exact stmt_flag_or_holds | discriminate].
+  destruct (String.eqb k "flag-or"); [exact stmt_flag_or_holds|].
+  destruct (String.eqb k "sum"); [exact stmt_sum_holds | discriminate].
 Qed.
 
 Definition fold_class (s : site) : bool :=
